@@ -620,7 +620,7 @@ func cornerDA() []*Case {
 	// D14 (apple half): no nonce extension at all — nothing ties the attestation to this challenge
 	out = append(out, &Case{Op: "validate", Typ: "da", Status: "pending", Token: tok, Value: "udid-1", Acct: 0, Mut: "apple:nonce-absent",
 		DA: &DAW{Format: "apple", Roots: "ca", X5c: "ok", Key: "p256", ASerial: "sn-1", AUDID: "udid-1"}})
-	// nil-error panic: P-384 attestation key; serial extension with trailing bytes
+	// regression inputs for fix b9777f2 (nil *acme.Error panic): P-384 attestation key; serial extension with trailing bytes
 	out = append(out, &Case{Op: "validate", Typ: "da", Status: "pending", Token: tok, Value: "12345678", Acct: 0, Mut: "step:key-p384",
 		DA: &DAW{Format: "step", Roots: "ca", X5c: "ok", Key: "p384", Sig: "ok", Signed: expectedKeyAuth(tok, 0), Serial: "12345678"}})
 	out = append(out, &Case{Op: "validate", Typ: "da", Status: "pending", Token: tok, Value: "12345678", Acct: 0, Mut: "step:serial-trailing",
